@@ -89,7 +89,8 @@ func (v *FnVC) encodeInstr(ins ssa.Instruction) {
 		x := v.val(i.X)
 		s, _ := structOf(i.X.Type())
 		f := s.Field(i.Field)
-		v.setVal(i, fmt.Sprintf("(%s__%s %s)", v.S.SortOf(i.X.Type()), sanitize(f.Name()), x.S))
+		_ = f
+		v.setVal(i, fmt.Sprintf("(%s__%s %s)", v.S.SortOf(i.X.Type()), fieldAcc(s, i.Field), x.S))
 	case *ssa.Index:
 		x := v.val(i.X)
 		idx := v.val(i.Index)
@@ -224,6 +225,13 @@ func (v *FnVC) encodeInstr(ins ssa.Instruction) {
 
 func (v *FnVC) encodeAlloc(i *ssa.Alloc) {
 	st := v.cur
+	if !i.Heap {
+		el := deref(i.Type())
+		l := &Loc{Kind: LLocal, Key: v.localKey(i), T: el, RootT: el}
+		v.ptrs[i] = l
+		v.store(st, l, v.S.Zero(el))
+		return
+	}
 	r := st.alloc
 	st.alloc = v.define("alloc", "Int", fmt.Sprintf("(+ %s 1)", r))
 	ref := v.define(i.Name(), "Int", r)
@@ -247,7 +255,7 @@ func (v *FnVC) convertStruct(x Term, to types.Type) Term {
 	}
 	var parts []string
 	for k := 0; k < dst.NumFields(); k++ {
-		parts = append(parts, fmt.Sprintf("(%s__%s %s)", fso, sanitize(from.Field(k).Name()), x.S))
+		parts = append(parts, fmt.Sprintf("(%s__%s %s)", fso, fieldAcc(from, k), x.S))
 	}
 	return Term{S: fmt.Sprintf("(mk_%s %s)", so, strings.Join(parts, " ")), Sort: so, T: to}
 }
@@ -256,6 +264,12 @@ func (v *FnVC) encodeUnOp(i *ssa.UnOp) {
 	st := v.cur
 	switch i.Op {
 	case token.MUL:
+		if g, ok := i.X.(*ssa.Global); ok && g.Pkg != nil && !strings.HasPrefix(g.Pkg.Pkg.Path(), v.W.Module) {
+			// package-level variable of a dependency: treated as an immutable constant (assumption, listed)
+			t := v.extGlobal(g.Pkg.Pkg.Path(), g.Name(), deref(g.Type()))
+			v.vals[i] = t
+			return
+		}
 		l := v.locOf(i.X)
 		if l.Opaque != "" {
 			v.panicCheck("nil", fmt.Sprintf("(not (= %s 0))", l.Opaque), "nil pointer dereference", i.Pos())
@@ -264,6 +278,7 @@ func (v *FnVC) encodeUnOp(i *ssa.UnOp) {
 		nt := v.setVal(i, t.S)
 		v.assumeWF(nt)
 		v.assumeFreshBound(nt, st)
+		v.assumeInvOnLoad(nt)
 	case token.NOT:
 		v.setVal(i, "(not "+v.val(i.X).S+")")
 	case token.SUB:
@@ -294,6 +309,19 @@ func (v *FnVC) encodeUnOp(i *ssa.UnOp) {
 	default:
 		v.fail("unsupported unop %s", i.Op)
 	}
+}
+
+func (v *FnVC) extGlobal(pkgPath, name string, t types.Type) Term {
+	n := "gval_" + sanitize(pkgPath+"."+name)
+	so := v.S.SortOf(t)
+	v.S.declFun(n, "() "+so)
+	tm := Term{S: n, Sort: so, T: t}
+	if !v.implFacts["gv:"+n] {
+		v.implFacts["gv:"+n] = true
+		v.assumeWF(tm)
+		v.note("package-level variable %s.%s of a dependency is treated as immutable", pkgPath, name)
+	}
+	return tm
 }
 
 func (v *FnVC) chanEvent(kind string, c Term, pos token.Pos) {}
